@@ -421,6 +421,18 @@ def check_forwarding(ctx):
                            mod=mod, node=c, sig="forward:" + ast.unparse(c.func))
                     n += 1
     ctx.need(n >= 9, "fewer than 9 nested gradient calls found in the quantum layer (%d)" % n)
+    # every gradient rule reads the mode with the same default: the parameter-shift (mixed) gradient unless mixed=False is asked for
+    modes = []
+    for mod in (GATES, CIRC, ZX):
+        for q, fn in methods_of(m, mod):
+            if isinstance(fn, ast.FunctionDef) and fn.name in ("grad", "jacobian"):
+                for c in ast.walk(fn):
+                    if isinstance(c, ast.Call) and isinstance(c.func, ast.Attribute) and c.func.attr == "get" and c.args and isinstance(c.args[0], ast.Constant) and c.args[0].value == "mixed":
+                        modes.append((q, c, ast.unparse(c.args[1]) if len(c.args) > 1 else "None"))
+    ctx.need(len(modes) >= 4, "fewer than 4 gradient rules read the mode (%d)" % len(modes))
+    for q, c, dflt in modes:
+        ctx.ob("R15.5", q + ":default-mode", dflt == "True", found="params.get('mixed', %s)" % dflt, required="params.get('mixed', True) in every gradient rule: with no mode given all rules take the same (mixed) gradient, "
+               "and rules without a mixed form refuse instead of silently switching to amplitudes", mod=q.rsplit(".", 2)[0], node=c, sig="default-mode", trivial=True)
     # fallbacks taken through getattr(x, name, <lambda>)(args) must bind the arguments of the call
     k = 0
     for mod in (TEN, GATES, CIRC, ZX):
@@ -485,7 +497,7 @@ def check(ctx):
     check_spiders(ctx)
     check_forwarding(ctx)
     check_bubble_chain_rule(ctx)
-    ctx.floor("R15.5", 13)
+    ctx.floor("R15.5", 17)
     ctx.floor("R15.1", 8)
     ctx.floor("R15.2", 12)
     ctx.floor("R15.3", 9)
